@@ -4,4 +4,4 @@
 id=$1; shift
 echo "== $id patch:"; grep -E "^(\+\+\+|[-+][^-+])" /tmp/wt/$id/MUTATION/patch.diff | cut -c1-200 | head -40
 bash /verif/orchestrator/tools/confirm.sh $id 2>&1 | grep -E "PATCH|FAILED|not applied" | head -8
-MUTPFX=$id /verif/orchestrator/tools/mutlab.sh run /tmp/wt/$id/MUTATION/patch.diff "$@" 2>&1 | grep -v "^WARNING" | head -12
+MUTPFX=$id MUTLAB=${MUTLAB:-/tmp/mutlab} /verif/orchestrator/tools/mutlab.sh run /tmp/wt/$id/MUTATION/patch.diff "$@" 2>&1 | grep -v "^WARNING" | head -12
